@@ -372,7 +372,7 @@ def gen_case(seed, tier, idx):
         return gen_collision(rnd, idx)
     if idx in (4, 5, 6, 7, 8):
         return gen_collision_literal(rnd, 4 if idx in (4, 6, 8) else 5)
-    if idx % 24 in (9, 21):
+    if idx % 13 == 12:          # 13 is coprime to len(KINDS): takes a slot from every kind in turn
         return {"engine": "elab", "kind": "nested", "sub": "rand", "pred": 0, "cfg": gen_nested(rnd, tier)}
     nk = len(KINDS)
     kind = KINDS[idx % nk]
